@@ -45,3 +45,169 @@ package coordinator
 //@   props C15
 //@   loop 1 invariant filled: all(k, 0, len(points), points[k] != nil)
 //@   ensures no_nil: all(k, 0, len(result), result[k] != nil)
+
+// ---- TLV codec, remaining entry points (C15 safety; used by the RPC contracts below) ----
+
+//@ func EncodeTLVT
+//@   props C15
+//@   requires w != nil
+//@   requires v != nil
+
+//@ func DecodeLV
+//@   props C15
+//@   requires r != nil
+//@   requires v != nil
+
+//@ func DecodeTLV
+//@   props C15
+//@   requires r != nil
+//@   requires v != nil
+
+//@ func DecodeTLVT
+//@   props C15
+//@   requires r != nil
+//@   requires v != nil
+
+//@ func ReadTLVT
+//@   props C15
+//@   requires r != nil
+
+//@ func WriteTLVT
+//@   props C15
+//@   requires w != nil
+
+// ---- C05.1 / C18.2: an error carried by a remote response must surface to the caller ----
+// Schema: ghost respErr records, right after the response was decoded, whether it carries an error;
+// every return must then be an error return. DecodeTLVT/UnmarshalBinary fill the response arbitrarily.
+
+//@ func (*MetaExecutor).dial
+//@   assumed
+//@   modifies *
+//@   ensures conn_or_err: result1 == nil ==> result0 != nil && ival(result0) != 0
+
+//@ func (*Client).dial
+//@   assumed
+//@   modifies *
+//@   ensures conn_or_err: result1 == nil ==> result0 != nil && ival(result0) != 0
+
+//@ func (*MetaExecutor).TaskManagerStatement
+//@   props C05
+//@   requires stmt != nil
+//@   ghost respErr bool = false
+//@   at after coordinator.DecodeTLVT#1: ghost respErr = resp.Err != nil
+//@   ensures err_surfaces: respErr ==> result1 != nil
+
+//@ func (*MetaExecutor).MeasurementNames
+//@   props C05
+//@   ghost respErr bool = false
+//@   at after coordinator.DecodeTLVT#1: ghost respErr = resp.Err != nil
+//@   ensures err_surfaces: respErr ==> result1 != nil
+
+//@ func (*MetaExecutor).TagKeys
+//@   props C05
+//@   ghost respErr bool = false
+//@   at after coordinator.DecodeTLVT#1: ghost respErr = resp.Err != nil
+//@   ensures err_surfaces: respErr ==> result1 != nil
+
+//@ func (*MetaExecutor).TagValues
+//@   props C05
+//@   ghost respErr bool = false
+//@   at after coordinator.DecodeTLVT#1: ghost respErr = resp.Err != nil
+//@   ensures err_surfaces: respErr ==> result1 != nil
+
+//@ func (*MetaExecutor).SeriesSketches
+//@   props C05
+//@   ghost respErr bool = false
+//@   at after coordinator.DecodeTLVT#1: ghost respErr = resp.Err != nil
+//@   ensures err_surfaces: respErr ==> result2 != nil
+
+//@ func (*MetaExecutor).MeasurementsSketches
+//@   props C05
+//@   ghost respErr bool = false
+//@   at after coordinator.DecodeTLVT#1: ghost respErr = resp.Err != nil
+//@   ensures err_surfaces: respErr ==> result2 != nil
+
+//@ func (*MetaExecutor).FieldDimensions
+//@   props C05
+//@   requires m != nil
+//@   ghost respErr bool = false
+//@   at after coordinator.DecodeTLVT#1: ghost respErr = resp.Err != nil
+//@   ensures err_surfaces: respErr ==> err != nil
+
+//@ func (*MetaExecutor).MapType
+//@   props C05
+//@   requires m != nil
+//@   ghost respErr bool = false
+//@   at after coordinator.DecodeTLVT#1: ghost respErr = resp.Err != nil
+//@   ensures err_surfaces: respErr ==> result1 != nil
+
+//@ func (*MetaExecutor).IteratorCost
+//@   props C05
+//@   requires m != nil
+//@   ghost respErr bool = false
+//@   at after coordinator.DecodeTLVT#1: ghost respErr = resp.Err != nil
+//@   ensures err_surfaces: respErr ==> result1 != nil
+
+//@ func (*MetaExecutor).CreateIterator
+//@   props C05
+//@   requires m != nil
+//@   ghost respErr bool = false
+//@   at after coordinator.DecodeTLVT#1 in CreateIterator$1: ghost respErr = resp.Err != nil
+//@   ensures err_surfaces: respErr ==> result1 != nil
+
+//@ func (*MetaExecutor).ReadFilter
+//@   props C05
+//@   requires req != nil
+//@   ghost respErr bool = false
+//@   at after coordinator.DecodeTLVT#1 in ReadFilter$1: ghost respErr = resp.Err != nil
+//@   ensures err_surfaces: respErr ==> result1 != nil
+
+//@ func (*MetaExecutor).ReadGroup
+//@   props C05
+//@   requires req != nil
+//@   ghost respErr bool = false
+//@   at after coordinator.DecodeTLVT#1 in ReadGroup$1: ghost respErr = resp.Err != nil
+//@   ensures err_surfaces: respErr ==> result1 != nil
+
+//@ func (*MetaExecutor).executeOnNode
+//@   props C05
+//@   requires stmt != nil
+//@   ghost respCode bool = false
+//@   at after coordinator.DecodeTLVT#1: ghost respCode = resp.pb.Code != nil && *resp.pb.Code != 0
+//@   ensures err_surfaces: respCode ==> result != nil
+
+//@ func (*Client).CopyShard
+//@   props C18
+//@   ghost respErr bool = false
+//@   at after CopyShardResponse.UnmarshalBinary#1: ghost respErr = resp.Err != nil
+//@   ensures err_surfaces: respErr ==> result != nil
+
+//@ func (*Client).RemoveShard
+//@   props C18
+//@   ghost respErr bool = false
+//@   at after RemoveShardResponse.UnmarshalBinary#1: ghost respErr = resp.Err != nil
+//@   ensures err_surfaces: respErr ==> result != nil
+
+//@ func (*Client).ListShards
+//@   props C18
+//@   ghost respErr bool = false
+//@   at after ListShardsResponse.UnmarshalBinary#1: ghost respErr = resp.Err != nil
+//@   ensures err_surfaces: respErr ==> result1 != nil
+
+//@ func (*Client).JoinCluster
+//@   props C18
+//@   ghost respErr bool = false
+//@   at after JoinClusterResponse.UnmarshalBinary#1: ghost respErr = resp.Err != nil
+//@   ensures err_surfaces: respErr ==> result1 != nil
+
+//@ func (*Client).LeaveCluster
+//@   props C18
+//@   ghost respErr bool = false
+//@   at after LeaveClusterResponse.UnmarshalBinary#1: ghost respErr = resp.Err != nil
+//@   ensures err_surfaces: respErr ==> result != nil
+
+//@ func (*Client).RemoveHintedHandoff
+//@   props C18
+//@   ghost respErr bool = false
+//@   at after RemoveHintedHandoffResponse.UnmarshalBinary#1: ghost respErr = resp.Err != nil
+//@   ensures err_surfaces: respErr ==> result != nil
